@@ -238,6 +238,128 @@ def blocking_case(item):
     return sc.name, role, diff_obs(base, obs)
 
 
+# ---------------------------------------------------------------- ASM
+def asm_case(item):
+    """Both endpoints driven through integration.AsyncStateMachine by
+    wantsReadEvent / wantsWriteEvent, under a transport regime."""
+    idx, tier, seed, rname = item
+    from tlslite.integration.asyncstatemachine import AsyncStateMachine
+    from tlslite.api import TLSConnection
+    sc = scenarios(tier)[idx]
+    _, base = progs.run_session(sc, seed)
+    base = progs.public(base)
+
+    class Mach(AsyncStateMachine):
+        def __init__(self, who, conn, plan):
+            AsyncStateMachine.__init__(self)
+            self.who = who
+            self.tlsConnection = conn
+            self.plan = list(plan)
+            self.log = []
+            self.rbuf = b""
+            self.eof = False
+            self.exc = None
+
+        def outConnectEvent(self):
+            self.log.append(("hs", "ok", W.view(self.tlsConnection)))
+
+        def outReadEvent(self, buf):
+            if not buf:
+                self.eof = True
+            self.rbuf += bytes(buf)
+
+        def outCloseEvent(self):
+            self.log.append(("close", "ok"))
+
+    W.SEAMS.reset(seed, sc.name)
+    script = W.Script(None, regime_fn(rname) if rname else None)
+    w = W.World(script, recv_alts=NRECV, send_alts=NSEND)
+    pair = W.Pair(w)
+    W.SEAMS.current = "C"
+    cm = Mach("C", pair.c, [("hs", sc.client_gen(pair.c)),
+                            ("write", progs.MSG1),
+                            ("read", len(progs.MSG2), "read"),
+                            ("write", progs.MSG3), ("close",)])
+    W.SEAMS.current = "S"
+    sm = Mach("S", pair.s, [("hs", sc.server_gen(pair.s)),
+                            ("read", len(progs.MSG1), "read"),
+                            ("write", progs.MSG2),
+                            ("read", len(progs.MSG3), "read"),
+                            ("read-eof",), ("close",)])
+    W.SEAMS.current = "main"
+    idle = 0
+    for _ in range(200000):
+        before = w.activity
+        changed = False
+        for m in (cm, sm):
+            if m.exc is not None:
+                continue
+            W.SEAMS.current = m.who
+            try:
+                if m.wantsReadEvent():
+                    m.inReadEvent()
+                elif m.wantsWriteEvent():
+                    m.inWriteEvent()
+                elif m.plan:
+                    st = m.plan[0]
+                    if st[0] == "hs":
+                        m.plan.pop(0)
+                        m.setHandshakeOp(st[1])
+                        changed = True
+                    elif st[0] == "write":
+                        m.plan.pop(0)
+                        m.setWriteOp(st[1])
+                        m.log.append(("write", len(st[1])))
+                        changed = True
+                    elif st[0] == "read":
+                        if len(m.rbuf) >= st[1]:
+                            m.log.append((st[2], m.rbuf[:st[1]]))
+                            m.rbuf = m.rbuf[st[1]:]
+                            m.plan.pop(0)
+                            changed = True
+                        elif m.eof:
+                            m.log.append((st[2], m.rbuf))
+                            m.plan = [("close",)]
+                            changed = True
+                        else:
+                            m.inReadEvent()
+                    elif st[0] == "read-eof":
+                        if m.eof:
+                            m.log.append(("read-eof", m.rbuf))
+                            m.plan.pop(0)
+                            changed = True
+                        else:
+                            m.inReadEvent()
+                    elif st[0] == "close":
+                        m.plan.pop(0)
+                        if m.tlsConnection.closed:
+                            m.log.append(("close", "ok"))
+                        else:
+                            m.setCloseOp()
+                        changed = True
+            except BaseException as e:  # noqa
+                m.exc = e
+                changed = True
+            finally:
+                W.SEAMS.current = "main"
+        done = all((not m.plan and m.result is None) or m.exc is not None
+                   for m in (cm, sm))
+        if done:
+            break
+        if w.activity == before and not changed:
+            idle += 1
+            if idle > 5:
+                break
+        else:
+            idle = 0
+    obs = {}
+    for m in (cm, sm):
+        out = W.Outcome("exc", exc=m.exc) if m.exc is not None else (
+            W.Outcome("ok") if not m.plan else W.Outcome("stall"))
+        obs[m.who] = progs.observe(m.tlsConnection, m.log, out)
+    return sc.name, rname, diff_obs(base, obs)
+
+
 # ---------------------------------------------------------------- reframing
 def plain_hs_prefix_len(records):
     """Number of leading records that are plaintext handshake records and may
@@ -383,6 +505,20 @@ def run(res, tier, seed):
                           {"part": "blocking", "scenario": name,
                            "role": role})
     res.section("blocking_api", executions=nb)
+    # AsyncStateMachine
+    items = [(i, tier, seed, r) for i in range(len(scs))
+             for r in (None, "recv1", "blockfirst", "halves")]
+    na = 0
+    for (name, rname, d) in pmap(asm_case, items):
+        na += 1
+        res.count()
+        res.outcome(("asm", rname, bool(d)))
+        if d:
+            res.violation({"part": "asyncstatemachine", "scenario": name,
+                           "regime": rname}, {"diff": d[:3]},
+                          {"part": "asyncstatemachine", "scenario": name,
+                           "regime": rname})
+    res.section("asyncstatemachine", executions=na)
     # re-framing
     items = []
     for i, sc in enumerate(scs):
@@ -410,9 +546,9 @@ def run(res, tier, seed):
                            "param": param})
     res.section("reframing", executions=nr)
     res.coverage["states"] = states
-    res.coverage["transitions"] = total + nreg + nb + nr
-    res.coverage["traces_validated_against_impl"] = total + nreg + nb + nr
-    res.coverage["distinct_nontrivial"] = total + nreg + nb + nr
+    res.coverage["transitions"] = total + nreg + nb + nr + na
+    res.coverage["traces_validated_against_impl"] = total + nreg + nb + nr + na
+    res.coverage["distinct_nontrivial"] = total + nreg + nb + nr + na
     res.assumptions += [
         "socket model: non-blocking socket may answer would-block on recv/"
         "send; sendall raises after a partial write as CPython's does",
